@@ -538,7 +538,10 @@ pub fn c11_strategy() -> BoxedStrategy<SchedConvCase> {
                     progs.push(Prog { read: ReadPlan::None, finish: Finish::Respond { status: 200, body_len: 5, declared: true, threshold: None } });
                     continue;
                 }
-                conv.reqs.push(gen::build_req(i as u32, method.into(), String::new(), "HTTP/1.1", vec![Hdr::new("Host", "h")], f.clone(), None, 1, 0, None, false));
+                // (a Connection header spread over two lines, the later one naming upgrade: the first line
+                // counts, the request is an ordinary one and its successors are read ahead)
+                let hs = if !has_body && (rk as usize + i) % 5 == 1 { vec![Hdr::new("Host", "h"), Hdr::new("Connection", "keep-alive"), Hdr::new("Connection", "Upgrade")] } else { vec![Hdr::new("Host", "h")] };
+                conv.reqs.push(gen::build_req(i as u32, method.into(), String::new(), "HTTP/1.1", hs, f.clone(), None, 1, 0, None, false));
                 let read = if is_streamed(&f) {
                     // every entry point of std::io::Read must release the successor at end-of-body
                     match rk % 7 {
